@@ -29,6 +29,15 @@ type LoopSpec struct {
 	Modifies   []*Clause
 }
 
+type Macro struct {
+	Name   string
+	Params []string
+	Body   Expr
+}
+
+// Macros: package path -> name -> macro (file-level "macro name(params) = expr" items)
+var Macros = map[string]map[string]*Macro{}
+
 type Contract struct {
 	Pkg      string // package path
 	Func     string // function key as written: Encode, (Date).Before, (*Date).UnmarshalJSON, sendto, udpBroadcastTo$1
@@ -50,12 +59,14 @@ type Contract struct {
 
 func (c *Contract) Key() string { return c.Pkg + "." + c.Func }
 
+var macroRe = regexp.MustCompile(`^([A-Za-z_][A-Za-z0-9_]*)\s*\(([^)]*)\)\s*=\s*(.*)$`)
+
 var labelRe = regexp.MustCompile(`^([A-Za-z_][A-Za-z0-9_\-]*):\s+`)
 
 var contractKeywords = map[string]bool{
 	"func": true, "requires": true, "ensures": true, "modifies": true, "loop": true,
 	"invariant": true, "decreases": true, "trusted": true, "maypanic": true, "pure": true,
-	"returns": true, "attr": true, "params": true, "interface": true, "method": true, "define": true,
+	"returns": true, "attr": true, "params": true, "interface": true, "method": true, "define": true, "macro": true,
 }
 
 // LoadContracts reads every contracts_verif.go below root.
@@ -167,6 +178,19 @@ func loadContractFile(path string, out map[string]*Contract) error {
 				return fmt.Errorf("%s:%d: duplicate contract for %s", path, rc.line, cur.Key())
 			}
 			out[cur.Key()] = cur
+		case "macro":
+			m := macroRe.FindStringSubmatch(rc.text)
+			if m == nil {
+				return fmt.Errorf("%s:%d: macro NAME(params) = expr", path, rc.line)
+			}
+			e, err := ParseExpr(m[3])
+			if err != nil {
+				return fmt.Errorf("%s:%d: %v", path, rc.line, err)
+			}
+			if Macros[pkgPath] == nil {
+				Macros[pkgPath] = map[string]*Macro{}
+			}
+			Macros[pkgPath][m[1]] = &Macro{Name: m[1], Params: splitNames(m[2]), Body: e}
 		default:
 			if cur == nil {
 				return fmt.Errorf("%s:%d: clause outside func", path, rc.line)
@@ -200,7 +224,19 @@ func loadContractFile(path string, out map[string]*Contract) error {
 				} else {
 					cur.Attrs[strings.TrimSpace(rc.text)] = "true"
 				}
-			case "requires", "ensures", "modifies":
+			case "modifies":
+				for _, part := range splitTopLevel(rc.text) {
+					cl, err := mkClause(rawClause{rc.kw, part, rc.line})
+					if err != nil {
+						return err
+					}
+					if curLoop != nil {
+						curLoop.Modifies = append(curLoop.Modifies, cl)
+					} else {
+						cur.Modifies = append(cur.Modifies, cl)
+					}
+				}
+			case "requires", "ensures":
 				cl, err := mkClause(rc)
 				if err != nil {
 					return err
@@ -295,6 +331,8 @@ type SpecAxiom struct {
 }
 
 type SpecDB struct {
+	Ghosts map[string]Sort
+	GhostOrder []string
 	Sorts  map[string]bool
 	Funcs  map[string]*SpecFunc
 	Axioms []*SpecAxiom
@@ -302,7 +340,7 @@ type SpecDB struct {
 }
 
 func NewSpecDB() *SpecDB {
-	return &SpecDB{Sorts: map[string]bool{}, Funcs: map[string]*SpecFunc{}, Consts: map[string]Sort{}}
+	return &SpecDB{Sorts: map[string]bool{}, Funcs: map[string]*SpecFunc{}, Consts: map[string]Sort{}, Ghosts: map[string]Sort{}}
 }
 
 func sortOfTypeName(db *SpecDB, n string) (Sort, error) {
@@ -315,6 +353,10 @@ func sortOfTypeName(db *SpecDB, n string) (Sort, error) {
 		return SStr, nil
 	case "arr":
 		return SArr, nil
+	case "arr2":
+		return SHInt, nil
+	case "barr":
+		return SArrB, nil
 	}
 	if db.Sorts[n] {
 		return Sort(n), nil
@@ -366,6 +408,17 @@ func (db *SpecDB) LoadFile(path string) error {
 		switch {
 		case strings.HasPrefix(it.text, "sort "):
 			db.Sorts[strings.TrimSpace(it.text[5:])] = true
+		case strings.HasPrefix(it.text, "ghost "):
+			fs := strings.Fields(it.text)
+			if len(fs) != 3 {
+				return fmt.Errorf("%s:%d: ghost NAME SORT", path, it.line)
+			}
+			s, err := sortOfTypeName(db, fs[2])
+			if err != nil {
+				return fmt.Errorf("%s:%d: %v", path, it.line, err)
+			}
+			db.Ghosts[fs[1]] = s
+			db.GhostOrder = append(db.GhostOrder, fs[1])
 		case strings.HasPrefix(it.text, "const "):
 			m := specConstRe.FindStringSubmatch(it.text)
 			if m == nil {
@@ -444,4 +497,27 @@ func (db *SpecDB) LoadFile(path string) error {
 		}
 	}
 	return nil
+}
+
+func splitTopLevel(s string) []string {
+	var out []string
+	depth := 0
+	start := 0
+	for i, c := range s {
+		switch c {
+		case '(', '[':
+			depth++
+		case ')', ']':
+			depth--
+		case ',':
+			if depth == 0 {
+				out = append(out, strings.TrimSpace(s[start:i]))
+				start = i + 1
+			}
+		}
+	}
+	if t := strings.TrimSpace(s[start:]); t != "" {
+		out = append(out, t)
+	}
+	return out
 }
